@@ -16,7 +16,8 @@ REQUIRED = ["contract.GoalRegion.is_reached", "contract.PlanningProblem.goal_rea
             "pos.circle", "pos.polygon", "pos.group", "pos.lanelets", "angle.len>pi", "angle.wrap", "state.PMState",
             "state.KSState", "state.MBState", "state.CustomState", "pm.vx<0", "value.int", "value.numpy",
             "on-boundary.time", "on-boundary.velocity", "on-boundary.position", "expected.True", "expected.False",
-            "multi-goal-state"]
+            "multi-goal-state", "requery-after.goal.translate_rotate", "requery-after.lanelet-goal",
+            "requery-after.replace-goal-state-in-place"]
 ASSUMPTIONS = ["orientation verdicts within 1e-9 of an interval end and circle-boundary positions are not judged",
                "states carry every attribute the goal constrains (otherwise the documented ValueError applies)"]
 SHARDS = {"quick": 4, "thorough": 16}
@@ -230,6 +231,32 @@ def run(ctx):
                 k2, cons = gm.classify(goal, s)
                 ctx.violation("C08/GoalRegion.is_reached/raises-%s/%s/%s" % (type(e).__name__, k2, cons), repr(e)[:300],
                               gm._wit(goal, s))
+        # query -> move the goal (or replace a goal state in place) -> query again: the verdict is the one for the goal
+        # as it is NOW (the contract on is_reached evaluates the current goal states)
+        if i % 2 == 0 and states:
+            import numpy as np
+            op = ["goal.translate_rotate", "planning_problem.translate_rotate", "replace-goal-state-in-place"][(i // 2) % 3]
+            tr, an = np.array([rng.uniform(-60, 60), rng.uniform(-60, 60)]), rng.choice([0.0, 0.3, -1.2, 3.0])
+            try:
+                if op == "goal.translate_rotate":
+                    goal.translate_rotate(tr, an)
+                elif op == "planning_problem.translate_rotate":
+                    PlanningProblem(8, G.state("InitialState", 0), goal).translate_rotate(tr, an)
+                else:
+                    j = rng.randrange(len(goal.state_list))
+                    goal.state_list[j] = goal.state_list[j].translate_rotate(tr, an)
+                ctx.feature("requery-after." + op)
+                if lanelets:
+                    ctx.feature("requery-after.lanelet-goal")
+                for s in states:
+                    for s2 in (s, s.translate_rotate(tr, an) if getattr(s, "position", None) is not None else s):
+                        ctx.evaluation()
+                        try:
+                            goal.is_reached(s2)
+                        except ValueError:
+                            pass
+            except Exception as e:  # noqa
+                ctx.violation("C08/requery-after/%s/raises-%s" % (op, type(e).__name__), repr(e)[:300], {"goal": gfp})
         # goal_reached on trajectories of one state class (same attribute set required)
         for cls in (STATE_CLASSES[i % len(STATE_CLASSES)], "PMState"):
             sl = [gen_state(G, rng, ctx, gss, cls) for _ in range(rng.randint(1, 5))]
